@@ -4,7 +4,7 @@ import collections.abc
 import copy
 
 from . import registry
-from .exceptions import ParseError
+from .exceptions import ExtraPropertiesError, ParseError
 from .utils import _get_dict, detect_spec_version
 
 
@@ -100,6 +100,12 @@ def dict_to_stix2(stix_dict, allow_custom=False, interoperability=False, version
                 # allow_custom=False and the extension defines a new object
                 return stix_dict
         raise ParseError("Can't parse unknown object type '%s'! For custom types, use the CustomObject decorator." % obj_type)
+
+    if not allow_custom and 'custom_properties' in stix_dict:
+        # 'custom_properties' is a constructor convenience which switches
+        # customization on; in parsed content it is just another property
+        # which is not defined by the specification.
+        raise ExtraPropertiesError(obj_class, ['custom_properties'])
 
     return obj_class(allow_custom=allow_custom, interoperability=interoperability, **stix_dict)
 
